@@ -292,7 +292,9 @@ def run(rep, info, model, tier, seed):
                     steps.append(("data", 100, E(1, b"hi")))
                     app = {3: list(APP["close"])}
                 elif kind == "ping-timeout":
-                    cfgkw = dict(ping_timeout=10 * 1024, close_timeout=None, ping_rate=rnd.choice([0, 30 * 1024]))
+                    # (automatic Pings at a rate below the timeout, as the documentation recommends: they must not keep a silent
+                    #  server "alive")
+                    cfgkw = dict(ping_timeout=10 * 1024, close_timeout=None, ping_rate=rnd.choice([0, 30 * 1024, 4 * 1024, 5 * 1024, 10 * 1024]))
                 else:
                     steps.append(("data", 100, E(8, ref6455.close_payload(1000, b""))))
                 app[at] = list(app.get(at, ())) + [("sleep", nap)]
